@@ -67,7 +67,8 @@ type Proc struct {
 	Exited     bool
 	ExitCode   int
 	ExitAt     time.Duration
-	sigs       []chan<- os.Signal
+	sigs       []sigSub
+	Killed     bool // ended by a signal it had not subscribed for
 	stallUntil time.Duration
 	isReal     bool
 }
@@ -113,11 +114,36 @@ func (p *Proc) Stall(d time.Duration) {
 	p.W.mu.Unlock()
 }
 
-// Signal delivers sig to every channel the process registered with signal.Notify.
+// Signal delivers sig to every channel the process subscribed for it with signal.Notify. A signal nobody
+// subscribed for has its default action: SIGINT and SIGTERM end the process on the spot (no handler runs,
+// nothing is written, its sockets close); the return value is then -1.
 func (p *Proc) Signal(sig os.Signal) int {
 	p.W.mu.Lock()
-	chans := append([]chan<- os.Signal(nil), p.sigs...)
+	var chans []chan<- os.Signal
+	for _, s := range p.sigs {
+		if len(s.sigs) == 0 {
+			chans = append(chans, s.c)
+			continue
+		}
+		for _, want := range s.sigs {
+			if want == sig {
+				chans = append(chans, s.c)
+				break
+			}
+		}
+	}
 	p.W.mu.Unlock()
+	if len(chans) == 0 {
+		p.W.mu.Lock()
+		p.dead = true
+		p.Killed = true
+		p.Exited = true
+		p.ExitCode = -1
+		p.ExitAt = p.W.Now()
+		p.W.mu.Unlock()
+		p.W.closeListenersOf(p)
+		return -1
+	}
 	n := 0
 	for _, c := range chans {
 		select {
@@ -129,15 +155,20 @@ func (p *Proc) Signal(sig os.Signal) int {
 	return n
 }
 
+type sigSub struct {
+	c    chan<- os.Signal
+	sigs []os.Signal
+}
+
 // RegisterSignal is called by the os/signal substitute.
-func RegisterSignal(c chan<- os.Signal) bool {
+func RegisterSignal(c chan<- os.Signal, sigs ...os.Signal) bool {
 	w := cur.Load()
 	if w == nil {
 		return false
 	}
 	t := w.CurrentTask("signal")
 	w.mu.Lock()
-	t.Proc.sigs = append(t.Proc.sigs, c)
+	t.Proc.sigs = append(t.Proc.sigs, sigSub{c, append([]os.Signal(nil), sigs...)})
 	w.mu.Unlock()
 	return true
 }
